@@ -134,3 +134,116 @@ def iter_battery(v: Verdict, n_cases: int):
                 v.violation("detailed_validation changes acceptance or the result for a one-shot iterable payload",
                             {"battery": "ITER", "type": "attribute xs: List[int], t: Tuple[int, ...]", "payload": f"{mk_name} over {base!r}", "detailed": repr(res[True]), "fast": repr(res[False])})
     v.coverage["iter_battery"] = hist
+
+
+# ------------------------------------------------------------------------------------ NamedTuples with Any / untyped slots
+
+def namedtuple_battery(v: Verdict, prop: str, n_cases: int):
+    """NamedTuples (C03 / C01): a named tuple is encoded like the heterogeneous tuple of its field types -- each field as its declared
+    type, Any-typed fields by the runtime class of the value -- whatever mix of pass-through and converting field types it has (the
+    converter skips the work only when NOTHING inside needs conversion).  Field types are drawn from pass-through leaves, Any, enums,
+    classes and containers; the values in Any slots are structured values (instances, enum members, lists / dicts of them).  Checked at
+    top level, inside a class, in a list and as a dict value; for both converter classes and both unstructure strategies.
+    Expected result = the tuple of the per-field encodings computed by a separate converter (field by field, `unstructure_as` the
+    field type); and the result must be primitive-only.  For C01 additionally the round trip where the field types allow it."""
+    import enum
+    from typing import NamedTuple, Optional
+    from cattrs import BaseConverter, Converter, UnstructureStrategy
+    rng = random.Random(v.seed * 4256233 + 505 + (0 if prop == "C03" else 1))
+    hist = {"cases": 0, "all_passthrough_or_any": 0, "any_slots_with_structured_value": 0, "positions": {}, "roundtrips": 0}
+
+    class NKind(enum.Enum):
+        A = "a"
+        B = "b"
+
+    NInner = attrs.make_class("NInner", {"x": attrs.field(type=int), "k": attrs.field(type=NKind)})
+
+    def prim_only(x):
+        if x is None or type(x) in (bool, int, float, str, bytes):
+            return True
+        if type(x) in (list, tuple, set, frozenset):
+            return all(prim_only(e) for e in x)
+        if type(x) is dict:
+            return all(prim_only(k) and prim_only(e) for k, e in x.items())
+        if isinstance(x, tuple) and hasattr(x, "_fields"):
+            return all(prim_only(e) for e in x)
+        return False
+
+    structured_vals = [lambda: NInner(1, NKind.A), lambda: NKind.B, lambda: [NInner(2, NKind.B)], lambda: {"k": NKind.A}, lambda: (NKind.A, 3)]
+    plain_vals = [lambda: 5, lambda: "s", lambda: None, lambda: [1, 2]]
+    ftypes = [("int", int, lambda: rng.randrange(9), True), ("str", str, lambda: rng.choice("abc"), True), ("float", float, lambda: 1.5, True),
+              ("bytes", bytes, lambda: b"x", True), ("Any", Any, None, True), ("NKind", NKind, lambda: rng.choice(list(NKind)), False),
+              ("NInner", NInner, lambda: NInner(rng.randrange(5), NKind.A), False), ("List[Any]", List[Any], None, False),
+              ("Optional[int]", Optional[int], lambda: rng.choice([None, 4]), True), ("List[NKind]", List[NKind], lambda: [NKind.A, NKind.B], False)]
+    for i in range(n_cases):
+        nf = rng.randint(1, 4)
+        if rng.random() < 0.6:
+            pool = [f for f in ftypes if f[3]]          # only pass-through leaves and Any: the shortcut the converter may take
+        else:
+            pool = ftypes
+        fields = [rng.choice(pool) for _ in range(nf)]
+        if not any(f[0] in ("Any", "List[Any]") for f in fields) and rng.random() < 0.8:
+            fields[rng.randrange(nf)] = ftypes[4]
+        NT = NamedTuple(f"NB{i}", [(f"f{j}", f[1]) for j, f in enumerate(fields)])
+        vals = []
+        any_structured = False
+        for f in fields:
+            if f[0] == "Any":
+                if rng.random() < 0.75:
+                    vals.append(rng.choice(structured_vals)())
+                    any_structured = True
+                else:
+                    vals.append(rng.choice(plain_vals)())
+            elif f[0] == "List[Any]":
+                vals.append([rng.choice(structured_vals)(), 7])
+                any_structured = True
+            else:
+                vals.append(f[2]())
+        x = NT(*vals)
+        hist["cases"] += 1
+        hist["all_passthrough_or_any"] += all(f[3] for f in fields)
+        hist["any_slots_with_structured_value"] += any_structured
+        Holder = attrs.make_class(f"NBHolder{i}", {"env": attrs.field(type=NT), "n": attrs.field(type=int)})
+        for cls in (Converter, BaseConverter):
+            for strat in (UnstructureStrategy.AS_DICT, UnstructureStrategy.AS_TUPLE):
+                ref = cls(unstruct_strat=strat)
+                want = tuple(ref.unstructure(val, unstructure_as=f[1]) for val, f in zip(x, fields))
+                positions = [("top", lambda c: c.unstructure(x), want),
+                             ("top, unstructure_as", lambda c: c.unstructure(x, unstructure_as=NT), want),
+                             ("list", lambda c: c.unstructure([x], unstructure_as=List[NT]), [want]),
+                             ("dict value", lambda c: c.unstructure({"k": x}, unstructure_as=Dict[str, NT]), {"k": want}),
+                             ("class attribute", lambda c: c.unstructure(Holder(x, 2)), {"env": want, "n": 2} if strat is UnstructureStrategy.AS_DICT else (want, 2))]
+                for pname, run, expect in positions:
+                    c = cls(unstruct_strat=strat)
+                    desc = {"battery": "NAMEDTUPLE", "converter": cls.__name__, "strategy": strat.name, "position": pname,
+                            "fields": [f[0] for f in fields], "value": repr(x)}
+                    v.count(repr(("nt", prop, desc)), True)
+                    hist["positions"][pname] = hist["positions"].get(pname, 0) + 1
+                    try:
+                        got = run(c)
+                    except Exception as e:      # noqa
+                        v.violation("unstructure of a NamedTuple value raised", {**desc, "raised": repr(e)[:200]})
+                        break
+                    if prop == "C03":
+                        if not prim_only(got):
+                            v.violation("a non-primitive value survives inside the unstructured form of a NamedTuple (Any-typed fields are encoded by the runtime class of the value)",
+                                        {**desc, "got": repr(got)[:300], "expected": repr(expect)[:300]})
+                            break
+                        if got != expect or (pname.startswith("top") and tuple(got) != tuple(expect)):
+                            v.violation("a NamedTuple is not encoded as the tuple of its fields, each as its declared type",
+                                        {**desc, "got": repr(got)[:300], "expected": repr(expect)[:300]})
+                            break
+                    elif pname == "top, unstructure_as" and not any(f[0] in ("Any", "List[Any]") for f in fields):
+                        hist["roundtrips"] += 1
+                        try:
+                            back = c.structure(got, NT)
+                        except Exception as e:      # noqa
+                            v.violation("structure(unstructure(x), T) raised for a NamedTuple", {**desc, "unstructured": repr(got)[:300], "raised": repr(e)[:200]})
+                            break
+                        if back != x or type(back) is not NT:
+                            v.violation("structure(unstructure(x), T) differs from x (NamedTuple)", {**desc, "unstructured": repr(got)[:300], "back": repr(back)[:300]})
+                            break
+                else:
+                    continue
+                break
+    v.coverage["namedtuple_battery"] = hist
